@@ -108,9 +108,20 @@ let () =
          let (v, _) = parse_val r in
          Printf.printf "e %s\n" (hex_of_bytes (encode_to_bytes !cur v))
        | ["D"; h] ->
-         (match decode_bytes !cur (bytes_of_hex h) with
-          | Ok (v, _, _) -> Printf.printf "d ok %s\n" (str_val v)
-          | Err (e, _) -> Printf.printf "d err %s\n" (str_err e))
+         (* the observable (incl. the error class) comes from the literal Stream machine; the
+            window decoder the theorems are about must agree on acceptance and on the value *)
+         let bs = bytes_of_hex h in
+         let w = decode_bytes !cur bs in
+         (match stream_decode_bytes !cur bs with
+          | SOk (v, _) ->
+            (match w with
+             | Ok (v', _, _) when v' = v -> Printf.printf "d ok %s\n" (str_val v)
+             | Ok (v', _, _) -> Printf.printf "d ok %s WINDOW-DECODER-DIFFERS %s\n" (str_val v) (str_val v')
+             | Err (e, _) -> Printf.printf "d ok %s WINDOW-DECODER-REJECTS %s\n" (str_val v) (str_err e))
+          | SErr e ->
+            (match w with
+             | Err (_, _) -> Printf.printf "d err %s\n" (str_err e)
+             | Ok (v', _, _) -> Printf.printf "d err %s WINDOW-DECODER-ACCEPTS %s\n" (str_err e) (str_val v')))
        | ["S"; h] ->
          (match split (bytes_of_hex h) with
           | ROk ((k, c), r) -> Printf.printf "s %s %s %s\n" (str_kind k) (hex_of_bytes c) (hex_of_bytes r)
